@@ -15,7 +15,7 @@ logging.disable(logging.CRITICAL)
 
 from traits.api import (  # noqa: E402
     Any, CInt, Constant, Disallow, Event, List, Map, HasPrivateTraits, HasStrictTraits, HasTraits, Int, Python,
-    ReadOnly, Str, Undefined,
+    ReadOnly, Str, Undefined, observe,
 )
 
 EXN = ["AttributeError", "TraitError", "TypeError"]
@@ -76,9 +76,43 @@ def is_early(op):
     return op[-1] == "E"
 
 
-def create(classes, cds):
+KIND = {"Python": 0, "Any": 1, "Disallow": 2, "ReadOnly": 3, "Constant": 4, "Event": 5, "Int": 61, "Str": 62,
+        "CInt": 63, "Map": 64, "List": 65}
+
+
+def inst_kind(obj, n):
+    """Code of the instance trait of `n` (None when there is none): handler class and default value
+    (C13/CorrL.v inst_code)."""
+    t = obj._instance_traits().get(n)
+    if t is None:
+        return None
+    k = KIND.get(type(t.handler).__name__, 69)
+    if k in (1, 3, 4, 61, 62, 63):
+        try:
+            d = atom(t.default)
+        except Exception:  # noqa
+            d = 999
+        return k * 1000 + (d if d != OTHER else 999)
+    return k * 1000
+
+
+def make_listener(table):
+    """A trait_added listener that declares traits lazily: names starting with a prefix of the
+    table get add_trait(name, <policy>) the first time the name is resolved for the class."""
+    def _declare(self, event):
+        name = event.new
+        for prefix, pol in table:
+            if name.startswith(prefix):
+                self.add_trait(name, mk(pol))
+                break
+    return observe("trait_added")(_declare)
+
+
+def create(classes, cds, listener_at=None, table=None):
     for cd in cds:
         ns = {}
+        if table and len(classes) == listener_at:
+            ns["_declare"] = make_listener(table)
         for n, pol in cd["decls"]:
             if n in ns:
                 raise ValueError("duplicate declaration " + n)
@@ -119,7 +153,7 @@ def execute(obj, ops, other=None):
             st = obj.__dict__.get(m, MISSING)
             return None if st is MISSING else atom(st)
         hist.append({"out": out, "stored": stored(n), "shadow": stored(n + "_"),
-                     "base": stored(n[:-1]) if n.endswith("_") else None})
+                     "base": stored(n[:-1]) if n.endswith("_") else None, "inst": inst_kind(obj, n)})
     return hist
 
 
@@ -135,14 +169,15 @@ def run_case(case):
     if ops != early + main:
         raise ValueError("early operations must come first")
     classes = list(ROOTS)
-    create(classes, cds[:len(cds) - nlate])
+    table = case.get("listener")
+    create(classes, cds[:len(cds) - nlate], case["cls"], table)
     hist = []
     if early:
         k = case["precls"]
         if k < len(ROOTS) or k >= len(classes):
             raise ValueError("the early instance must be of a freshly created, already existing class")
         hist += execute(classes[k](), early)
-    create(classes, cds[len(cds) - nlate:])
+    create(classes, cds[len(cds) - nlate:], case["cls"], table)
     k = case["cls"]
     if k < len(ROOTS):
         raise ValueError("the instance must be of a freshly created class")
